@@ -318,6 +318,35 @@ func runC10(ctx *core.Ctx) {
 		}
 		cs.Flush(lc)
 	})
+	// declaration boundaries: a permissive matcher ("tiny": any value of <= 6 bytes) accepts a value
+	// that leaves a block, string, comment or escape open; whatever is emitted must still read, for a
+	// browser, as declarations whose values a matcher accepts
+	openers := []string{"{", "(", "[", "\"x", "'x", "x /*", "x\\", "x\\;", "url(", "x(", "}", ")", "]", "x!y", "x !z", "/*", "\\", "\"", "'", "x\\\n", "([", "{(", "a\\9", "<!--", "-->", "x\"", "\\;"}
+	ctx.Run("declaration-boundaries", len(openers)*4, func(cs *core.Case) {
+		op := openers[cs.Index%len(openers)]
+		variant := cs.Index / len(openers)
+		ops := []spec.Op{{K: spec.KNew}, {K: spec.KAllowElements, Names: []string{"span"}},
+			{K: spec.KAllowStyles, Attrs: []string{"margin", "padding"}, Matcher: "handler", Handler: "tiny", Scope: []string{"global", "els", "match", "global"}[variant], Names: []string{"span"}, ElRe: `^sp`},
+			{K: spec.KAllowStyles, Attrs: []string{"color"}, Matcher: "re", Re: `^(red|blue)$`, Scope: "global"}}
+		env := NewEnv(ops)
+		lc := core.LocalCounts{}
+		for _, tail := range []string{"; color: red; width: evil", "; color: red", ";color:red;margin:1px", "", ";", "; padding: " + op + "; color: blue"} {
+			for _, head := range []string{"", "color: blue; "} {
+				in := `<span style="` + gen.CanonEscape(head+"margin: "+op+tail) + `">x</span>`
+				ob := observe(env, in, 0)
+				cs.Eval()
+				lc["boundary_probes"]++
+				c10Judge(cs, ob, lc)
+				if s2 := env.Pol.Sanitize(ob.Out); s2 != ob.Out {
+					w := ob.Witness()
+					w["second_pass"] = core.Show(s2)
+					cs.Violate("C10:boundary:reparse-differs", fmt.Sprintf("the emitted style does not survive a second parse unchanged: first=%q second=%q input=%q", ob.Out, s2, in), w)
+				}
+			}
+		}
+		cs.Flush(lc)
+	})
+	ctx.Floor("boundary_probes", 1000)
 	ctx.MinNontrivial(int64(ctx.N(20000, 300000)))
 	ctx.Floor("output_declarations_judged", 20000)
 	ctx.Floor("clean_style_inputs_judged", 5000)
